@@ -51,7 +51,7 @@ def run(ctx, rep):
             for s in blk["s"]:
                 if s[0] == "=" and s[2][0] == "agg" and s[2][1][0] == "adt" and s[2][1][1].endswith("commands::check::CheckError"):
                     cons.append((b, bi, s))
-    rep.floor("C05.a", "CheckError construction sites", len(cons), 30)
+    rep.floor("C05.a", "CheckError construction sites", len(cons), 20)
     seen_variants = set()
     ordn = {}
     for (b, bi, s) in cons:
